@@ -19,7 +19,7 @@ enum Stmt {
     Use(String, Vec<String>),
 }
 
-const PARAM_POOL: [&str; 14] = ["p", "pq", "pqr", "q", "v", "va", "val", "n", "nn", "r1", "r", "k", "_t", "t_"];
+const PARAM_POOL: [&str; 18] = ["p", "pq", "pqr", "q", "v", "va", "val", "n", "nn", "r1", "r", "k", "_t", "t_", "N", "VAL", "P", "Pq"];
 
 fn word_chars(c: char) -> bool {
     c.is_ascii_alphanumeric() || c == '_'
@@ -112,7 +112,8 @@ fn rand_lib(rng: &mut Rng) -> Vec<Mac> {
     let n = rng.below(7);
     let mut lib: Vec<Mac> = Vec::new();
     for i in 0..n {
-        let np = rng.below(5);
+        // mostly 0-4 parameters, now and then more than ten (placeholders with two digits)
+        let np = if rng.chance(1, 12) { 9 + rng.below(6) } else { rng.below(5) };
         let mut params: Vec<String> = Vec::new();
         while params.len() < np {
             let p = PARAM_POOL[rng.below(PARAM_POOL.len())].to_string();
@@ -228,9 +229,9 @@ fn error_cases() -> Vec<Case> {
 
 fn fixed_positive_cases() -> Vec<Case> {
     let mk = |defs: &str, use_txt: &str, body: &str, kind: &'static str| {
-        let pre = format!("dlabel: dw 5\n{}\nstart:\nclc\n", defs);
+        let pre = format!("dlabel: dw 5\nDLABEL2: dw 6\nAX2v: dw 7\n{}\nstart:\nclc\n", defs);
         let text = format!("{}{}\nstc\n", pre, use_txt);
-        Case { text, expanded: Some(format!("dlabel: dw 5\nstart:\nclc\n{}\nstc\n", body)), use_span: (pre.len(), pre.len() + use_txt.len()), kind }
+        Case { text, expanded: Some(format!("dlabel: dw 5\nDLABEL2: dw 6\nAX2v: dw 7\nstart:\nclc\n{}\nstc\n", body)), use_span: (pre.len(), pre.len() + use_txt.len()), kind }
     };
     vec![
         // the documentation's own example of passing a macro by name
@@ -247,6 +248,20 @@ fn fixed_positive_cases() -> Vec<Case> {
         mk("macro z(p) -> and al,p <-", "z(0b101)", "and al,0b101", "binary-argument"),
         mk("macro z(_) -> cld <-", "z(_)", "cld", "no-parameter"),
         mk("macro in1(p) -> inc p <-\nmacro out1(p,q) -> in1 (p) in1 (q) <-", "out1(ax,bx)", "inc ax inc bx", "nested"),
+        // more than ten parameters
+        mk(
+            "macro big(a0,a1,a2,a3,a4,a5,a6,a7,a8,a9,a10,a11,a12) -> mov ax,a0 add ax,a1 add ax,a2 add ax,a3 add ax,a4 add ax,a5 add ax,a6 add ax,a7 add ax,a8 add ax,a9 add ax,a10 add ax,a11 add ax,a12 <-",
+            "big(1,2,3,4,5,6,7,8,9,10,11,12,13)",
+            "mov ax,1 add ax,2 add ax,3 add ax,4 add ax,5 add ax,6 add ax,7 add ax,8 add ax,9 add ax,10 add ax,11 add ax,12 add ax,13",
+            "thirteen-parameters",
+        ),
+        mk("macro sk(u0,u1,u2,u3,u4,u5,u6,u7,u8,u9,u10) -> mov dx,u10 mov bx,u1 <-", "sk(0,21,0,0,0,0,0,0,0,0,30)", "mov dx,30 mov bx,21", "eleventh-parameter-only"),
+        // unused parameters before used ones
+        mk("macro un(unused,dst,v) -> mov dst,v <-", "un(9,bx,4660)", "mov bx,4660", "unused-leading-parameter"),
+        // names differing only in case are different names: a label / a second parameter next to a parameter
+        mk("macro ld(dlabel2) -> mov ax,word dlabel2 mov bx,word DLABEL2 <-\nmacro pr(n,N) -> mov cx,n mov dx,N <-", "ld(dlabel)", "mov ax,word dlabel mov bx,word DLABEL2", "parameter-vs-label-case"),
+        mk("macro pr(n,N) -> mov cx,n mov dx,N <-", "pr(3,4)", "mov cx,3 mov dx,4", "parameters-differing-in-case"),
+        mk("macro kp(ax2v) -> mov ax,ax2v mov word AX2v,ax <-", "kp(7)", "mov ax,7 mov word AX2v,ax", "parameter-vs-label-case"),
     ]
 }
 
